@@ -347,7 +347,10 @@ func (vc *VC) script(relaxed bool) string { return vc.scriptShard(relaxed, 0, 1)
 
 // scriptShard renders the incremental script in which only every n-th
 // obligation (those with index %% n == k) is checked; all are assumed.
-func (vc *VC) scriptShard(relaxed bool, k, n int) string {
+func (vc *VC) scriptShard(relaxed bool, k, n int) string { return vc.scriptShardOnly(relaxed, k, n, nil) }
+
+// scriptShardOnly: as scriptShard, but only obligations named in only (if non-nil) are checked.
+func (vc *VC) scriptShardOnly(relaxed bool, k, n int, only map[string]bool) string {
 	obIndex := 0
 	var b strings.Builder
 	b.WriteString(prelude)
@@ -365,6 +368,10 @@ func (vc *VC) scriptShard(relaxed bool, k, n int) string {
 			continue
 		}
 		ob := it.Ob
+		if only != nil && !only[ob.Name] {
+			fmt.Fprintf(&b, "(assert %s)\n", imp(ob.Reach, ob.Goal))
+			continue
+		}
 		if obIndex%n == k {
 			fmt.Fprintf(&b, "(push 1)\n(assert %s)\n(echo \"@OB %s\")\n(check-sat)\n(pop 1)\n", and(ob.Reach, not(ob.Goal)), ob.Name)
 		}
